@@ -73,7 +73,7 @@ CORNERS = [
 
 # negated classes whose ranges touch the first / last letter of the generator's alphabet (' ' and '~') or lie
 # entirely outside it; generated 600 times over so that every letter of the complement is drawn
-EDGE_CLASSES = ["[^\\x00- ]", "[^\t- ]", "[^ - ]", "[^~-\\x7f]", "[^~-~]", "[^}-\\x80]", "[^\\x00-!]", "[^ -!]", "[^\\x7f-\\xff]",
+EDGE_CLASSES = ["[^\\x00-z]", "[^\\x00-Z_-z]", "[^\\x01-y]", "[^\\x00-}]", "[^\\x00- ]", "[^\t- ]", "[^ - ]", "[^~-\\x7f]", "[^~-~]", "[^}-\\x80]", "[^\\x00-!]", "[^ -!]", "[^\\x7f-\\xff]",
                 "[^\\x00-\\x1f]", "[^ ~]", "[^!-}]", "[^\\d -/]", "[^\\w~]", "[^a-zA-Z ]"]
 
 
